@@ -78,12 +78,20 @@ def ev(node, env, hook=None):
             f = _CMP.get(type(op))
             if f is None:
                 raise Unknown('operator in %s' % t)
+            if isinstance(left, Opaque) or isinstance(right, Opaque):
+                if isinstance(op, (ast.Is, ast.IsNot)) and (left is None or right is None):
+                    pass        # an opaque token is a non-None value
+                else:
+                    raise Unknown('comparison with a value that is not computable: %s' % unparse(node))
             if not f(left, right):
                 return False
             left = right
         return True
     if isinstance(node, ast.BinOp) and type(node.op) in _BIN:
-        return _BIN[type(node.op)](ev(node.left, env, hook), ev(node.right, env, hook))
+        lv, rv = ev(node.left, env, hook), ev(node.right, env, hook)
+        if isinstance(lv, Opaque) or isinstance(rv, Opaque):
+            raise Unknown('arithmetic on a value that is not computable: %s' % unparse(node))
+        return _BIN[type(node.op)](lv, rv)
     if isinstance(node, ast.Subscript):
         base = ev(node.value, env, hook)
         if isinstance(node.slice, ast.Slice):
@@ -107,6 +115,8 @@ def ev(node, env, hook=None):
         if isinstance(fn, ast.Attribute) and fn.attr in _STR_METHODS:
             base = ev(fn.value, env, hook)
             if isinstance(base, str):
+                return getattr(base, fn.attr)(*[ev(a, env, hook) for a in node.args])
+            if isinstance(base, bytes) and hasattr(bytes, fn.attr):
                 return getattr(base, fn.attr)(*[ev(a, env, hook) for a in node.args])
         if isinstance(fn, ast.Attribute) and fn.attr == 'decode':
             base = ev(fn.value, env, hook)
